@@ -44,6 +44,8 @@ var c05Rules = []struct{ name, src string }{
 	{"otherwise", "/^o|^n/ {\n  /^o 7/ {\n    c0[\"seven\"]++\n  }\n  otherwise {\n    c1++\n  }\n}\n"},
 	{"const-time", "/^k/ {\n  strptime(\"2012-12-12 12:12:12\", \"2006-01-02 15:04:05\")\n  ts = timestamp()\n  c0[\"k\"]++\n}\n"},
 	{"div", "/^v (?P<n>\\d+)$/ {\n  c1++\n  g0 = 100 / $n\n  c0[\"v\"]++\n}\n"},
+	{"strptime-then-error", "/^u (?P<v>\\S+ \\S+) (?P<w>\\w+)$/ {\n  strptime($v, \"2006-01-02 15:04:05\")\n  c1++\n  g0 = strtol($w, 10)\n  c0[\"u\"]++\n}\n"},
+	{"strptime-then-stop", "/^q (?P<v>\\S+ \\S+)$/ {\n  strptime($v, \"2006-01-02 15:04:05\")\n  c1++\n  stop\n}\n"},
 	{"capture-reuse", "/^(?P<first>\\w) (?P<rest>.*)$/ {\n  s0 = $rest\n  c0[$first]++\n}\n"},
 }
 
@@ -80,7 +82,11 @@ func c05Line(e *Env, pool *[]string) string {
 		return fmt.Sprintf("%04d-%02d-%02d %02d:%02d:%02d", 2000+e.Choose("gen", 3), 1+e.Choose("gen", 12), 1+e.Choose("gen", 12), e.Choose("gen", 24), e.Choose("gen", 60), 7)
 	}
 	var l string
-	switch e.Choose("gen", 15) {
+	switch e.Choose("gen", 17) {
+	case 15:
+		l = "u " + date() + " " + []string{"12", "zz", "q9"}[e.Choose("gen", 3)]
+	case 16:
+		l = "q " + date()
 	case 0:
 		l = "a " + date()
 	case 1:
@@ -180,7 +186,7 @@ func propC05(e *Env) {
 			e.Probe("history_line_raised_runtime_error")
 			stateful = true
 		}
-		if strings.HasPrefix(l, "a ") || strings.HasPrefix(l, "b ") || strings.HasPrefix(l, "y ") {
+		if strings.HasPrefix(l, "a ") || strings.HasPrefix(l, "b ") || strings.HasPrefix(l, "y ") || strings.HasPrefix(l, "u ") || strings.HasPrefix(l, "q ") {
 			stateful = true
 			e.Probe("history_has_strptime")
 		}
